@@ -10688,7 +10688,17 @@ func (p *parser) visitAndAppendStmt(stmts []js_ast.Stmt, stmt js_ast.Stmt) []js_
 		}
 
 		p.currentScope.Label = ast.LocRef{Loc: s.Name.Loc, Ref: ref}
-		switch s.Stmt.Data.(type) {
+
+		// All labels that are stacked directly on a loop ("a: b: for (;;) continue a") belong to that loop
+		labeled := s.Stmt
+		for {
+			if inner, ok := labeled.Data.(*js_ast.SLabel); ok {
+				labeled = inner.Stmt
+			} else {
+				break
+			}
+		}
+		switch labeled.Data.(type) {
 		case *js_ast.SFor, *js_ast.SForIn, *js_ast.SForOf, *js_ast.SWhile, *js_ast.SDoWhile:
 			p.currentScope.LabelStmtIsLoop = true
 		}
@@ -10723,7 +10733,16 @@ func (p *parser) visitAndAppendStmt(stmts []js_ast.Stmt, stmt js_ast.Stmt) []js_
 
 		// Handle "for await" that has been lowered by moving this label inside the "try"
 		if try, ok := s.Stmt.Data.(*js_ast.STry); ok && len(try.Block.Stmts) == 1 {
-			if loop, ok := try.Block.Stmts[0].Data.(*js_ast.SFor); ok && loop.IsLoweredForAwait {
+			// (other labels of the same loop may already have been moved inside)
+			inner := try.Block.Stmts[0]
+			for {
+				if label, ok := inner.Data.(*js_ast.SLabel); ok {
+					inner = label.Stmt
+				} else {
+					break
+				}
+			}
+			if loop, ok := inner.Data.(*js_ast.SFor); ok && loop.IsLoweredForAwait {
 				try.Block.Stmts[0] = js_ast.Stmt{Loc: stmt.Loc, Data: &js_ast.SLabel{
 					Stmt:             try.Block.Stmts[0],
 					Name:             s.Name,
